@@ -112,9 +112,14 @@ class MemberOracle(RaftOracle):
         ents = log[:]
         base = ents[0][1]
         prev_last = self.prev_last.get(host.idx)
-        if prev_last is None or base <= 1 and host.extra.get('joiner'):
+        if prev_last is None:
             return self._member_idx(host)
-        if base <= 1:
+        if base <= 1 and host.extra.get('joiner'):
+            # a joiner was started with the committed member list; its log then replays the changes
+            cur = host.extra.get('start_members')
+            if cur is None:
+                return self._member_idx(host)
+        elif base <= 1:
             cur = self.initial
         elif self._extend_fold(base - 1):
             cur = self.fold[base - 1]
